@@ -23,9 +23,9 @@ ASSUME = [
 ]
 
 CIRCUITS = {
-    'c1': ('SAED90', '''module c1 (a, b, z, y); input a, b; output z, y; wire x;
-             AND2X1 g1 (.IN1(a), .IN2(b), .Q(x)); INVX1 g2 (.INP(x), .ZN(z)); XOR2X1 \\g[3] (.IN1(x), .IN2(a), .Q(y)); endmodule''',
-           {'g1': ('AND2X1', ['IN1', 'IN2'], 'Q'), 'g2': ('INVX1', ['INP'], 'ZN'), 'g[3]': ('XOR2X1', ['IN1', 'IN2'], 'Q')}),
+    'c1': ('SAED90', '''module c1 (a, b, z, y, w); input a, b; output z, y, w; wire x;
+             AND2X1 g1 (.IN1(a), .IN2(b), .Q(x)); INVX1 g2 (.INP(x), .ZN(z)); XOR2X1 \\g[3] (.IN1(x), .IN2(a), .Q(y)); NAND2X1 g_3_ (.IN1(x), .IN2(b), .QN(w)); endmodule''',
+           {'g1': ('AND2X1', ['IN1', 'IN2'], 'Q'), 'g2': ('INVX1', ['INP'], 'ZN'), 'g[3]': ('XOR2X1', ['IN1', 'IN2'], 'Q'), 'g_3_': ('NAND2X1', ['IN1', 'IN2'], 'QN')}),      # g[3] and g_3_ are different instances
     'c2': ('NANGATE', '''module c2 (a, b, c, z); input a, b, c; output z; wire n1, n2;
              NAND2_X1 u1 (.A1(a), .A2(b), .ZN(n1)); NOR2_X1 u2 (.A1(n1), .A2(c), .ZN(n2)); MUX2_X1 u3 (.A(n2), .B(n1), .S(c), .Z(z)); endmodule''',
            {'u1': ('NAND2_X1', ['A1', 'A2'], 'ZN'), 'u2': ('NOR2_X1', ['A1', 'A2'], 'ZN'), 'u3': ('MUX2_X1', ['A', 'B', 'S'], 'Z')}),
@@ -101,7 +101,8 @@ def interconnect_candidates(c, cells, lib):
 
 def render(cname, E, I, grouping, igroup, rng, subst=None):
     subst = subst or {}
-    lines = ['(DELAYFILE', ' (SDFVERSION "3.0")', f' (DESIGN "{cname}")', ' (DIVIDER /)', ' (TIMESCALE 1ns)']
+    design = rng.choice([cname, next(iter(CIRCUITS[cname][2]))])          # the design header may coincide with an instance name - it names nothing inside the file
+    lines = ['(DELAYFILE', ' (SDFVERSION "3.0")', f' (DESIGN "{sdf_name(design)}")', ' (DIVIDER /)', ' (TIMESCALE 1ns)']
 
     def tr(t):
         if t is None: return '()'
